@@ -88,6 +88,18 @@ pub struct Leaf {
     pub flags: u64,
 }
 
+impl Leaf {
+    /// a huge-page entry whose address is not aligned to the page size (only foreign entries)
+    pub fn misaligned(&self, path_len: u8) -> bool {
+        let sz: u64 = match path_len {
+            2 => 1 << 30,
+            3 => 1 << 21,
+            _ => 1 << 12,
+        };
+        self.frame & (sz - 1) != 0
+    }
+}
+
 #[derive(Clone, Copy, Debug, PartialEq, Eq)]
 pub enum Class {
     /// entry at this path length (1..) above the leaf slot is empty
